@@ -116,6 +116,8 @@ def run_case(cs):
         points.append((k, "none", kind, path))
         if kind == "write" and n and n >= 2:
             points.append((k, "half", kind, path))
+        if rng.random() < 0.25:
+            points.append((k, "sigint", kind, path))  # interrupted by Ctrl-C at this point instead of killed
     cap = 90 if cs.tier == "quick" else 10**6
     if len(points) > cap:
         keep = [p for p in points if p[2] != "write"]
